@@ -13,6 +13,9 @@ def claim(pid, technique, text, note, ref):
 
 exec((V / "harness" / "manifest_table.py").read_text())
 
+# keep the umbrella import file current
+pd = V / "lean" / "ArchSim" / "Props"
+(V / "lean" / "ArchSim" / "AllProps.lean").write_text("".join(f"import ArchSim.Props.{p.stem}\n" for p in sorted(pd.glob("*.lean"))))
 props = [json.loads(l)["id"] for l in (V / "properties.jsonl").read_text().splitlines() if l.strip()]
 checks = []
 for pid in props:
@@ -33,7 +36,7 @@ na = [{"property_id": pid, "reason": NOT_YET.get(pid, "check not built yet in th
       for pid in props if pid not in CLAIMED]
 m = {
     "version": 1,
-    "setup_cmd": "cd /verif/lean && lake build ArchSim archsim-model",
+    "setup_cmd": "cd /verif/lean && lake build ArchSim archsim-model ArchSim.AllProps",
     "hooks": {
         "guard": "ARCHSIM_VERIF",
         "enable": "no hook is needed: the checks observe /repo's classes by attribute access from /venv/bin/python (editable install of /repo's working tree); ./check exports ARCHSIM_VERIF=1 for completeness",
